@@ -926,8 +926,17 @@ mod response {
         /// Ensures the length of the `response` using the variant of [`ResponsePipe`].
         #[inline]
         pub fn ensure_length<T>(&self, response: &mut Response<T>, len: u64) {
-            if let Self::Http1(_) = self {
-                utils::set_content_length(response.headers_mut(), len);
+            match self {
+                Self::Http1(_) => utils::set_content_length(response.headers_mut(), len),
+                // HTTP/2 and HTTP/3 frame the body themselves, but a `content-length` left by an
+                // extension (the length before compression or a range was applied) must not
+                // contradict the body: clients treat that as a protocol error.
+                #[allow(unreachable_patterns)]
+                _ => {
+                    if response.headers().contains_key("content-length") {
+                        utils::set_content_length(response.headers_mut(), len);
+                    }
+                }
             }
         }
         /// Ensures the version of the `response` using the variant of [`ResponsePipe`].
